@@ -474,3 +474,46 @@ Proof.
     { rewrite len_cons. pose proof (len_nonneg Z). exists (Z.to_nat (Z.min (Z.of_nat (S k)) (1 + len Z)) - 1)%nat. lia. }
     destruct Hpos as (m & ->). cbn [firstn]. eauto.
 Qed.
+
+(** ** what survives cleaning: only characters of the input, and blanks *)
+
+Lemma collapse_Forall (P : ascii -> Prop) : forall s, Forall P s -> Forall P (collapse_blanks s).
+Proof.
+  induction s as [|c s IH]; intros H; [constructor|].
+  inversion H as [|? ? Hc Hs]; subst. cbn [collapse_blanks].
+  destruct (chr_eqb c ttl_blank).
+  - destruct s as [|d s']; [repeat constructor; exact Hc|].
+    destruct (chr_eqb d ttl_blank); [apply IH; exact Hs | constructor; [exact Hc | apply IH; exact Hs]].
+  - constructor; [exact Hc | apply IH; exact Hs].
+Qed.
+
+Lemma sub_Forall (P : ascii -> Prop) s : P ttl_blank -> Forall P s -> Forall P (sub_other_blanks s).
+Proof.
+  intros Hb H. induction H as [|c s Hc Hs IH]; [constructor|].
+  cbn [sub_other_blanks map]. constructor; [destruct (mem_chr c ttl_other_blanks); assumption | exact IH].
+Qed.
+
+Lemma lstrip_suffix (P : ascii -> Prop) : forall s, Forall P s -> Forall P (lstrip s).
+Proof.
+  induction s as [|c s IH]; intros H; [constructor|]. inversion H; subst. cbn [lstrip].
+  destruct (is_space c); [apply IH; assumption | exact H].
+Qed.
+
+Lemma rstrip_Forall (P : ascii -> Prop) s : Forall P s -> Forall P (rstrip s).
+Proof.
+  intros H. unfold rstrip. apply Forall_rev. apply lstrip_suffix. apply Forall_rev. exact H.
+Qed.
+
+Lemma strip_Forall (P : ascii -> Prop) s : Forall P s -> Forall P (strip s).
+Proof. intros H. unfold strip. apply rstrip_Forall, lstrip_suffix, H. Qed.
+
+Lemma norm_Forall (P : ascii -> Prop) raw : P ttl_blank -> Forall P raw -> Forall P (norm raw).
+Proof. intros Hb H. unfold norm. apply strip_Forall, collapse_Forall, sub_Forall; assumption. Qed.
+
+(** if [norm raw = J ++ blank-# ++ Z] then [Z] is made of characters of [raw] and blanks *)
+Lemma norm_tail_Forall (P : ascii -> Prop) raw J Z :
+  P ttl_blank -> Forall P raw -> norm raw = J ++ hash_pat ++ Z -> Forall P Z.
+Proof.
+  intros Hb H E. pose proof (norm_Forall P raw Hb H) as HN. rewrite E in HN.
+  apply Forall_app in HN. destruct HN as (_ & HN). apply Forall_app in HN. apply HN.
+Qed.
